@@ -91,6 +91,28 @@ if os.environ.get("LSPROTOCOL_VERIF_SIM") == "1" and os.environ.get("LSPV_CONF")
             _dt.datetime, _dt.date = datetime, date
             log({"ev": "clock", "offset": off})
 
+        # ---- machine identity: cpu count, host name, user (what another machine would answer) -------
+        fake = conf.get("fake_machine") or {}
+        if fake:
+            if "cpu_count" in fake:
+                os.cpu_count = lambda: fake["cpu_count"]
+                try:
+                    import multiprocessing as _mp
+
+                    _mp.cpu_count = lambda: fake["cpu_count"]
+                except Exception:
+                    pass
+            if "hostname" in fake:
+                import platform as _pf
+                import socket as _so
+
+                _so.gethostname = lambda: fake["hostname"]
+                _pf.node = lambda: fake["hostname"]
+            if "terminal" in fake:
+                import shutil as _sh
+
+                _sh.get_terminal_size = lambda fallback=(80, 24): os.terminal_size(tuple(fake["terminal"]))
+
         # ---- directory enumeration order --------------------------------------------------------
         if conf.get("ls_seed") is not None:
             real_scandir, real_listdir = os.scandir, os.listdir
